@@ -24,6 +24,9 @@ Decides:
  X repetition exit  whether many/some/count/last/collect go round again depends only on parse_option's result and State::len();
                         count() adds one on every way from a success to the next round or the exit; only the listed functions call
                         State::remove / get / set_scope.
+ B builders        wiring table of the combinator API (rules/wiring.py): what each constructor / builder method stores in which field of the parser
+                        it returns (many/optional/some/collect: catch=false; switch: present true, absent false; short/long/env: each into its own list;
+                        positional: unrestricted; command: the given name is the first long name ..).
 Does not decide: that the composition accepts exactly the declared language and attributes values correctly
 for every shape x vector (language equivalence over run-time data)."""
 from core import *
@@ -34,7 +37,7 @@ from dataflow import *
 LEVEL = 'other'
 EXPLANATION = __doc__
 ASSUMPTIONS = ['user closures and FromStr impls are total and pure', 'the witness forms of construct! cover the documented forms; other call shapes expand through the same macro arms']
-FLOORS = {'C.consumers': 22, 'P.primitives': 13, 'W.construct': 70, 'K3.consult': 120, 'K5.loops': 11, 'O.leftover': 2, 'F.parsecon': 3, 'R.registry': 14, 'L.lossless': 2, 'B.boundaries': 3, 'T.separator': 2, 'N.name-once': 2, 'A.accept-sets': 8}
+FLOORS = {'C.consumers': 22, 'P.primitives': 13, 'W.construct': 70, 'K3.consult': 120, 'K5.loops': 11, 'O.leftover': 2, 'F.parsecon': 3, 'R.registry': 14, 'L.lossless': 2, 'B.boundaries': 3, 'T.separator': 2, 'N.name-once': 2, 'A.accept-sets': 8, 'B.builders': 50}
 
 def run(ctx):
     cfgs = ['none', 'all'] if ctx.tier == 'quick' else ['none', 'all', 'ac', 'doc', 'bat']
@@ -61,6 +64,8 @@ def run(ctx):
         ctx.guard(c08.first_name_only, ctx, cfg, fs, 'N.name-once')
         ctx.guard(c08.keep_only, ctx, lambda: c08.name_first(ctx, cfg, fs), lambda o: 'records-position' in o.key, 'N.name-once')
         ctx.guard(consumers.accept_sets, ctx, cfg, fs, 'A.accept-sets')
+        import wiring
+        ctx.guard(wiring.builders, ctx, cfg, fs, 'B.builders')
     ctx.guard(shapes.construct_shapes, ctx, 'W.construct')
 
 def parsecon(ctx, cfg, fs):
